@@ -112,6 +112,43 @@ func genJSONWrites(repo string) (genFile, error) {
 		prog := writeProgram(func(n ast.Node) string { return src(fset, n) }, funcDecl(f, "Message", e.fn), layout)
 		fmt.Fprintf(&b, "/-- Message.%s in %s -/\ndef %s : List W := [\n  %s\n]\n\n", e.fn, e.file, e.lean, strings.Join(prog, ",\n  "))
 	}
+	// the type-switch arms of writeValue: which Go dynamic types the encoder can write
+	for _, e := range []struct{ lean, file string }{{"ipfixWriteValueArms", "ipfix/marshal.go"}, {"v9WriteValueArms", "netflow/v9/marshal.go"}} {
+		fset, f, err := parseFile(repo, e.file)
+		if err != nil {
+			return genFile{}, err
+		}
+		var arms []string
+		fd := funcDecl(f, "Message", "writeValue")
+		if fd == nil {
+			arms = append(arms, "!unrecognised: function missing")
+		} else {
+			for _, st := range fd.Body.List {
+				ts, ok := st.(*ast.TypeSwitchStmt)
+				if !ok {
+					continue
+				}
+				for _, c := range ts.Body.List {
+					cc := c.(*ast.CaseClause)
+					for _, t := range cc.List {
+						// an arm counts only if it writes something and does not return an error
+						body := src(fset, &ast.BlockStmt{List: cc.Body})
+						if len(cc.Body) > 0 && !strings.Contains(body, "return errUknownMarshalDataType") {
+							arms = append(arms, src(fset, t))
+						}
+					}
+				}
+			}
+		}
+		fmt.Fprintf(&b, "/-- Go dynamic types with a writing arm in Message.writeValue of %s -/\ndef %s : List String := [", e.file, e.lean)
+		for i, a := range arms {
+			if i > 0 {
+				b.WriteString(", ")
+			}
+			b.WriteString(leanStr(a))
+		}
+		b.WriteString("]\n\n")
+	}
 	b.WriteString(footer("JsonWrites"))
 	// the import must precede the module doc: move the header comment after the import
 	return genFile{"JsonWrites", b.String()}, nil
